@@ -36,8 +36,13 @@ def run_manual(sc, params):
     """params = (w, l, r, k_rb, k_lb, k_tb, fd)"""
     w, l, r, rb, lb, tb, fd = params
     sc.clear()
-    moves = [[(3 if (fd and i == 0 and j == 0) else 1) for j in range(w)] for i in range(l)]
-    rewards = [[(r if (i == 0 and j == 0) else 0) for j in range(w)] for i in range(l)]
+    # the maximal reward and the only down-only tile sit in the LAST tile; the first row starts with larger entries than the last
+    # one (the name must be derived from the whole board, not from its first / lexicographically greatest row)
+    last = (l - 1, w - 1)
+    moves = [[(3 if (fd and (i, j) == last) else (2 if (i, j) == (0, 0) else 1)) for j in range(w)] for i in range(l)]
+    if fd and l * w == 1:
+        moves = [[3]]
+    rewards = [[(r if (i, j) == last else (min(1, r) if (i, j) == (0, 0) else 0)) for j in range(w)] for i in range(l)]
     loose = [[0] * w for _ in range(l)]
     try:
         SG.create_sg_from_board(moves, rewards, loose, rb / 100, lb / 100, tb / 100)
@@ -49,7 +54,7 @@ def run_manual(sc, params):
     m = gen.MANUAL_RE.match(files[0])
     if not m:
         return ("C17/manual-name-format", files[0], None, "manual file name %r has an unexpected format" % files[0]), files[0]
-    got = tuple(int(x) for x in m.groups()[:6]) + (m.group(7) is not None,)
+    got = tuple((float(x) if "." in x else int(x)) for x in m.groups()[:6]) + (m.group(7) is not None,)
     if got != params:
         return ("C17/manual-name-misstates-parameters", files[0], None, "manual parameters %r produced %r, which states %r" % (params, files[0], got)), files[0]
     return None, files[0]
@@ -162,7 +167,12 @@ def run(ctx):
             for r in (1, 6):
                 for fd in (False, True):
                     manual.append((w, l, r, rb, lb, tb, fd))
-    manual = sorted(set(manual))
+    for (w, l) in ((2, 2), (3, 2)):
+        for r in (2.5, 0.5):
+            for fd in (False, True):
+                for k in (10, 29):
+                    manual.append((w, l, r, k, 5, 25, fd))
+    manual = sorted(set(manual), key=repr)
     shards = []
     n = ctx.jobs * 2
     for i in range(n):
